@@ -67,6 +67,23 @@ static int c14_main(int argc,char **argv){
                ci->bi.max_rate,ci->bi.min_rate);
         if(hasref)printf("cfg2 refused=%s\n",ovname(refused));
       }
+    }else if(!strcmp(tok[0],"cfgd")&&n>=6){
+      /* cfgd <ch> <rate> <max_bps> <nominal_bps> <min_bps>: vorbis_encode_setup_managed alone (every tuning value left at its default) */
+      int rc; int ch=atoi(tok[1]); long rate=atol(tok[2]);
+      c14_close();
+      vorbis_info_init(&E14.vi);
+      rc=vorbis_encode_setup_managed(&E14.vi,ch,rate,atol(tok[3]),atol(tok[4]),atol(tok[5]));
+      if(!rc) rc=vorbis_encode_setup_init(&E14.vi);
+      if(rc){ printf("cfg rc=%s\n",ovname(rc)); vorbis_info_clear(&E14.vi); }
+      else{
+        codec_setup_info *ci; bitrate_manager_state *bm;
+        vorbis_analysis_init(&E14.vd,&E14.vi); vorbis_block_init(&E14.vd,&E14.vb); E14.live=1;
+        ci=E14.vi.codec_setup; bm=c14_bm();
+        printf("cfg rc=0 managed=%d minb=%ld maxb=%ld avgb=%ld spl=%ld RB=%ld desired=%ld R0=%ld bs0=%ld bs1=%ld rate=%ld maxrate=%ld minrate=%ld\n",
+               bm->managed,bm->min_bitsper,bm->max_bitsper,bm->avg_bitsper,bm->short_per_long,ci->bi.reservoir_bits,
+               (long)(ci->bi.reservoir_bits*ci->bi.reservoir_bias),bm->minmax_reservoir,ci->blocksizes[0],ci->blocksizes[1],E14.vi.rate,
+               ci->bi.max_rate,ci->bi.min_rate);
+      }
     }else if(!strcmp(tok[0],"blk")&&n>=2+PACKETBLOBS&&E14.live){
       vorbis_block_internal *vbi=E14.vb.internal; long blobs[PACKETBLOBS]; int i; long k; ogg_packet op;
       E14.vb.W=atoi(tok[1]);
